@@ -1084,6 +1084,72 @@ def r_guard(f):
             RA.inst(b.ident, "the requested capacity only enters Vec's own (checked) arithmetic", badc is None)
             if badc:
                 RA.fail(b.ident, "capacity:%s" % badc[1], "%s combines the caller's count with a plain `%s`: for zero-sized elements (lengths near usize::MAX) the sum wraps with overflow checks off, Vec::reserve is skipped and its capacity-overflow panic - which insert_row / insert_col rely on before they lower the length - is lost" % (b.ident, badc[1]), b.where(badc[0]))
+            # Vec::reserve(n) is relative to the LENGTH ("capacity for n more elements"): the wrapper must hand the caller's count
+            # on as it is.  A count reduced by something (spare capacity, `min`, a subtraction) reserves too little, and insert_row /
+            # insert_col then write past the allocation
+            less = None
+            for bi, t_, fn_ in b.calls():
+                if fn_ and fn_["name"] in ("reserve", "reserve_exact", "try_reserve", "try_reserve_exact") and "alloc::vec::Vec" in (fn_.get("path") or "") and len(t_["args"]) > 1:
+                    e = strip(d.expr(t_["args"][1]))
+                    if e == ("param", 2):
+                        continue
+                    mentions = any(x == ("param", 2) for x in walk(e))
+                    if mentions and ((e[0] == "call" and re.search(r"(saturating_sub|wrapping_sub|checked_sub|min|abs_diff)$", str(e[1]))) or (e[0] == "bin" and str(e[1]).startswith(("Sub", "Div", "Shr", "BitAnd", "Rem")))):
+                        less = (t_["span"], show(e))
+            RA.inst(b.ident, "the caller's count reaches Vec::%s undiminished" % b.name, less is None)
+            if less:
+                RA.fail(b.ident, "capacity:reduced", "%s hands Vec::%s a count that is smaller than the one asked for (%s): Vec::reserve is already relative to the length, so with some spare capacity the buffer is not grown enough and insert_row / insert_col write the new line past the allocation" % (b.ident, b.name, less[1][:120]), b.where(less[0]))
+    # a dimension (or a length) never passes through an integer type that cannot hold every usize: `num_cols as i32` is a
+    # different number for 2^31 columns and more (zero-sized cells make such arrays real, large byte buffers make them plausible)
+    NARROW = ("u8", "u16", "u32", "i8", "i16", "i32")
+    DIMF = ("num_cols", "num_rows", "stride", "cols", "skip_cols", "skip")
+    adt_fields = {a["id"].split("::")[-1]: [x["name"] for x in a["fields"]] for a in f.adts}
+
+    def dim_derived(b_, d_, o):
+        e = d_.expr(o)
+        for x in walk(e):
+            if not isinstance(x, tuple):
+                continue
+            if x[0] == "field" and strip(x[1]) in (("deref", ("param", 1)), ("param", 1)) and b_.self_head in adt_fields:
+                fl_ = adt_fields[b_.self_head]
+                if x[2] < len(fl_) and fl_[x[2]] in DIMF:
+                    return fl_[x[2]]
+            if x[0] == "call" and x[2] in ("num_cols", "num_rows", "len", "size") and x[3] and any(y == ("param", 1) for y in walk(x[3][0])):
+                return x[2] + "()"
+        return None
+    narrow_casts = {}      # body id -> [(span, operand expr, target type)]
+    for b_ in f.fn_bodies:
+        if not b_.blocks or "/tests" in b_.file.replace("\\", "/"):
+            continue
+        for bi, si, st in b_.stmts():
+            if st["k"] == "assign" and st["rv"]["k"] == "cast" and str(st["rv"].get("ty")) in NARROW:
+                o = st["rv"]["o"]
+                if o["k"] in ("copy", "move") and not o["p"]["proj"] and str(b_.locals[o["p"]["local"]]) == "usize":
+                    narrow_casts.setdefault(b_.id, []).append((st["span"], o, str(st["rv"]["ty"])))
+    ntr = 0
+    trunc = []
+    for bid, lst in narrow_casts.items():
+        b_ = f.by_id[bid]
+        d_ = Dfx(b_)
+        for sp, o, ty in lst:
+            dn = dim_derived(b_, d_, o)
+            if dn:
+                trunc.append((b_, b_, sp, dn, ty))
+                continue
+            e = strip(d_.expr(o))
+            if e[0] == "param":
+                # which callers hand a dimension to this parameter?
+                for c_ in f.fn_bodies:
+                    for bi, t_, fn_ in c_.calls():
+                        cb_ = f.crate_fn_for_call(fn_) if fn_ else None
+                        if cb_ is not None and cb_.id == bid and e[1] - 1 < len(t_["args"]):
+                            dn = dim_derived(c_, Dfx(c_), t_["args"][e[1] - 1])
+                            if dn:
+                                trunc.append((c_, b_, t_["span"], dn, ty))
+    n += 1
+    RA.inst("<crate>", "no dimension or length is converted to an integer type narrower than usize (%d narrowing casts of usize values looked at)" % sum(len(v) for v in narrow_casts.values()), not trunc)
+    for c_, b_, sp, dn, ty in trunc:
+        RA.fail(c_.ident, "truncates:%s:%s" % (dn, ty), "%s converts %s to %s%s: for %s of 2^%d and more the value is a different number, so in-range coordinates are mapped to the wrong cell (or a remainder by zero panics)" % (c_.ident, dn, ty, "" if c_ is b_ else " (in %s)" % b_.ident, dn, 31 if ty == "i32" else int(re.sub(r"\D", "", ty)) - (1 if ty.startswith("i") else 0)), c_.where(sp))
     from .rules_struct import cfg_features
     R.require_floor(n, 40 if len(cfg_features(f)) == 4 else 28, "role instances")
     return [R, RA], n
